@@ -32,6 +32,16 @@ def tree_fixed():
     return bool(m) and "c.inFlightPQ[msg.index] != msg" in m.group(1)
 
 
+def tree_scan_atomic():
+    """shape of processInFlightQueue on this tree (Gen fact; Tie theorem scan_shape_known)"""
+    try:
+        txt = open(os.path.join(framework.LEAN, "Nsq", "Gen", "Life.lean")).read()
+    except OSError:
+        return False
+    m = re.search(r"def scanCalls : List String := \[(.*)\]", txt)
+    return bool(m) and "popInFlightMessage" not in m.group(1) and '"delete"' in m.group(1)
+
+
 def fix_commit(ctx, key):
     for f in ctx.known_findings().get("fixed", []):
         if f.get("property") == ctx.prop and f.get("key") == key:
@@ -345,10 +355,11 @@ def life_property_fails(last, op, impl, model):
     return None
 
 
-def micro_corr(ctx, binp, corr_broken, seed, n, steps, fixed):
+def micro_corr(ctx, binp, corr_broken, seed, n, steps, fixed, scan_atomic=False):
     rc, out = ctx.run_cmd([binp, "-test.run", "^TestVerifE5MicroCorr$", "-test.count=1", "-test.timeout", "%ds" % deadline(ctx)],
                           timeout=deadline(ctx) + 30, env={"VERIF_SEED": seed, "VERIF_N": n, "VERIF_STEPS": steps,
-                                            "VERIF_OUT": ctx.work, "VERIF_FIXED": 1 if fixed else 0})
+                                            "VERIF_OUT": ctx.work, "VERIF_FIXED": 1 if fixed else 0,
+                                            "VERIF_SCANATOMIC": 1 if scan_atomic else 0})
     if rc != 0 and hung(ctx, rc, out, "TestVerifE5MicroCorr", seed, n, steps):
         corr_broken.append("micro harness hit its deadline")
         return
@@ -492,6 +503,11 @@ def run(ctx):
         ctx.leanchecker(PROPS)
     fixed = tree_fixed()
     ctx.corr["tree_has_F7_fix"] = fixed
+    scan_atomic = tree_scan_atomic()
+    ctx.corr["tree_scan_pop_atomic"] = scan_atomic
+    ctx.notes.append("processInFlightQueue on this tree: %s → model parameter scanAtomic=%s"
+                     % ("heap pop + map delete in one critical section" if scan_atomic else
+                        "heap pop, then popInFlightMessage (two critical sections)", scan_atomic))
     ctx.notes.append("removeFromInFlightPQ on this tree: %s → micro-step model parameter fixed=%s; theorem in force: %s"
                      % ("patched guard" if fixed else "`if msg.index == -1`", fixed,
                         "no_fault (all schedules)" if fixed else "no_fault_full_false + known finding F7"))
@@ -508,7 +524,7 @@ def run(ctx):
             return
         replay_known(ctx, binp)
         life_corr(ctx, binp, corr_broken, ctx.seed, ctx.budget(40, 400), ctx.budget(60, 80))
-        micro_corr(ctx, binp, corr_broken, ctx.seed, ctx.budget(400, 6000), ctx.budget(40, 60), fixed)
+        micro_corr(ctx, binp, corr_broken, ctx.seed, ctx.budget(400, 6000), ctx.budget(40, 60), fixed, scan_atomic)
         race_bin = None
         if ctx.thorough():
             race_bin = ctx.go_test_binary("nsqd", HARNESS, "e5c08race", race=True)
@@ -538,7 +554,7 @@ def replay_file(ctx, binp, fixed):
         if d["test"] == "TestVerifE5LifeCorr":
             life_corr(ctx, binp, cb, d["seed"], d["n"], d["steps"])
         else:
-            micro_corr(ctx, binp, cb, d["seed"], d["n"], d["steps"], fixed)
+            micro_corr(ctx, binp, cb, d["seed"], d["n"], d["steps"], fixed, tree_scan_atomic())
         print("replay of %s: %s" % (p, cb or "no disagreement"))
         return
     # a micro-step schedule (lines `if …`): print the model's answers
